@@ -2,7 +2,7 @@
 (* C09: at rest nobody alive is paused or half-stopped, everybody answers a   *)
 (* probe, queued mail keeps its order, a zombie runs no user code.            *)
 EXTENDS Integers, Sequences, FiniteSets, TLC, Json
-VARIABLES l, bad, zombies, probes, delivered, dl, lastDrv, requeued, stash, states, phase, dlTo, tellAt, firstFail
+VARIABLES l, bad, zombies, probes, delivered, dl, lastDrv, requeued, stash, states, phase, dlTo, tellAt, firstFail, awaiting
 
 (***************************************************************************)
 (* Trace alphabet (one JSON object per line, totally ordered by the turn   *)
@@ -22,51 +22,54 @@ Get(f, k, d) == IF k \in DOMAIN f THEN f[k] ELSE d
 Put(f, k, v) == [x \in DOMAIN f \cup {k} |-> IF x = k THEN v ELSE f[x]]
 Flag(rule) == IF bad = "" THEN rule ELSE bad
 Range(s) == {s[i] : i \in 1..Len(s)}
-vars == <<l, bad, zombies, probes, delivered, dl, lastDrv, requeued, stash, states, phase, dlTo, tellAt, firstFail>>
-Fresh == zombies = {} /\ probes = <<>> /\ delivered = {} /\ dl = {} /\ lastDrv = <<>> /\ requeued = {} /\ stash = <<>> /\ states = <<>> /\ phase = "" /\ dlTo = {} /\ tellAt = <<>> /\ firstFail = 0
-FreshNext == zombies' = {} /\ probes' = <<>> /\ delivered' = {} /\ dl' = {} /\ lastDrv' = <<>> /\ requeued' = {} /\ stash' = <<>> /\ states' = <<>> /\ phase' = "" /\ dlTo' = {} /\ tellAt' = <<>> /\ firstFail' = 0
+vars == <<l, bad, zombies, probes, delivered, dl, lastDrv, requeued, stash, states, phase, dlTo, tellAt, firstFail, awaiting>>
+Fresh == zombies = {} /\ probes = <<>> /\ delivered = {} /\ dl = {} /\ lastDrv = <<>> /\ requeued = {} /\ stash = <<>> /\ states = <<>> /\ phase = "" /\ dlTo = {} /\ tellAt = <<>> /\ firstFail = 0 /\ awaiting = {}
+FreshNext == zombies' = {} /\ probes' = <<>> /\ delivered' = {} /\ dl' = {} /\ lastDrv' = <<>> /\ requeued' = {} /\ stash' = <<>> /\ states' = <<>> /\ phase' = "" /\ dlTo' = {} /\ tellAt' = <<>> /\ firstFail' = 0 /\ awaiting' = {}
 Init == l = 1 /\ bad = "" /\ Fresh
 OnTell ==
     /\ (Ev.e = "Tell")
     /\ probes' = IF Ev.s = "probe" THEN Put(probes, Ev.m, Ev.a) ELSE probes
     /\ tellAt' = Put(tellAt, Ev.m, l)
-    /\ UNCHANGED <<bad, zombies, delivered, dl, lastDrv, requeued, stash, states, phase, dlTo, firstFail>>
+    /\ UNCHANGED <<bad, zombies, delivered, dl, lastDrv, requeued, stash, states, phase, dlTo, firstFail, awaiting>>
 OnHook ==
     /\ (Ev.e = "Hook")
     /\ zombies' = IF Ev.v = 0 /\ Ev.k \in {"restarted", "prelaunch"} THEN zombies \cup {Ev.a} ELSE zombies
+    /\ awaiting' = awaiting \ {Ev.a}
     /\ UNCHANGED <<bad, probes, delivered, dl, lastDrv, requeued, stash, states, phase, dlTo, tellAt, firstFail>>
 OnDeliv ==
     /\ (Ev.e = "Deliv")
     /\ delivered' = IF Ev.k = "user" THEN delivered \cup {Ev.m} ELSE delivered
     /\ requeued' = requeued \ {Ev.m}
     /\ lastDrv' = IF Ev.k = "user" /\ Ev.m \notin requeued THEN Put(lastDrv, Ev.a, Ev.m) ELSE lastDrv
+    /\ awaiting' = IF Ev.k \in {"kill", "killed"} THEN awaiting \ {Ev.a} ELSE awaiting
     /\ bad' = IF Ev.a \in zombies THEN Flag("ZombieRunsUserCode")
+               ELSE IF Ev.k = "user" /\ Ev.a \in awaiting THEN Flag("FailedActorWaitsForTheDecision")
                ELSE IF Ev.k = "user" /\ Ev.m \notin requeued /\ Ev.m < Get(lastDrv, Ev.a, 0) /\ Ev.s # "nop2" THEN Flag("QueuedMailInOrder")
                ELSE bad
     /\ UNCHANGED <<zombies, probes, dl, stash, states, phase, dlTo, tellAt, firstFail>>
 OnStashed ==
     /\ (Ev.e = "Stashed")
     /\ stash' = Put(stash, Ev.a, Append(Get(stash, Ev.a, <<>>), Ev.m))
-    /\ UNCHANGED <<bad, zombies, probes, delivered, dl, lastDrv, requeued, states, phase, dlTo, tellAt, firstFail>>
+    /\ UNCHANGED <<bad, zombies, probes, delivered, dl, lastDrv, requeued, states, phase, dlTo, tellAt, firstFail, awaiting>>
 OnUnstashed ==
     /\ (Ev.e = "Unstashed")
     /\ LET s == Get(stash, Ev.a, <<>>) n == IF Ev.n <= Len(s) THEN Ev.n ELSE Len(s) IN
          /\ requeued' = requeued \cup {s[i] : i \in 1..n}
          /\ stash' = Put(stash, Ev.a, SubSeq(s, n + 1, Len(s)))
-    /\ UNCHANGED <<bad, zombies, probes, delivered, dl, lastDrv, states, phase, dlTo, tellAt, firstFail>>
+    /\ UNCHANGED <<bad, zombies, probes, delivered, dl, lastDrv, states, phase, dlTo, tellAt, firstFail, awaiting>>
 OnDL ==
     /\ (Ev.e = "DL")
     /\ dl' = IF Ev.k = "user" THEN dl \cup {Ev.m} ELSE dl
     /\ dlTo' = IF Ev.k = "user" /\ Ev.a # "" THEN dlTo \cup {<<Ev.m, Ev.a>>} ELSE dlTo
-    /\ UNCHANGED <<bad, zombies, probes, delivered, lastDrv, requeued, stash, states, phase, tellAt, firstFail>>
+    /\ UNCHANGED <<bad, zombies, probes, delivered, lastDrv, requeued, stash, states, phase, tellAt, firstFail, awaiting>>
 OnQBegin ==
     /\ (Ev.e = "QBegin")
     /\ states' = <<>> /\ phase' = Ev.s
-    /\ UNCHANGED <<bad, zombies, probes, delivered, dl, lastDrv, requeued, stash, dlTo, tellAt, firstFail>>
+    /\ UNCHANGED <<bad, zombies, probes, delivered, dl, lastDrv, requeued, stash, dlTo, tellAt, firstFail, awaiting>>
 OnAState ==
     /\ (Ev.e = "AState")
     /\ states' = Put(states, Ev.a, <<Ev.s, Ev.v, Ev.m>>)
-    /\ UNCHANGED <<bad, zombies, probes, delivered, dl, lastDrv, requeued, stash, phase, dlTo, tellAt, firstFail>>
+    /\ UNCHANGED <<bad, zombies, probes, delivered, dl, lastDrv, requeued, stash, phase, dlTo, tellAt, firstFail, awaiting>>
 OnQEnd ==
     /\ (Ev.e = "QEnd")
     /\ LET stuck == {a \in DOMAIN states : states[a][1] = "running" /\ states[a][2] = 1}
@@ -90,16 +93,26 @@ OnQEnd ==
                   ELSE IF mail # {} THEN Flag("QueuedMailSurvives")
                   ELSE IF unanswered # {} THEN Flag("ProbeAnswered")
                   ELSE bad
-    /\ UNCHANGED <<zombies, probes, delivered, dl, lastDrv, requeued, stash, states, phase, dlTo, tellAt, firstFail>>
+    /\ UNCHANGED <<zombies, probes, delivered, dl, lastDrv, requeued, stash, states, phase, dlTo, tellAt, firstFail, awaiting>>
 OnStuck ==
     /\ (Ev.e = "Stuck")
     /\ bad' = Flag("NobodySpins")
-    /\ UNCHANGED <<zombies, probes, delivered, dl, lastDrv, requeued, stash, states, phase, dlTo, tellAt, firstFail>>
+    /\ UNCHANGED <<zombies, probes, delivered, dl, lastDrv, requeued, stash, states, phase, dlTo, tellAt, firstFail, awaiting>>
 OnReset == Ev.e = "Reset" /\ FreshNext /\ UNCHANGED bad
+\* awaiting: actors that have failed (while not already stopping: v = 0) and have not been resumed, restarted or killed since.
+\* Such an actor is suspended: it handles no user message until a decision lets it continue
 OnFail == /\ Ev.e = "Fail" /\ firstFail' = (IF firstFail = 0 THEN l ELSE firstFail)
+          /\ awaiting' = IF Ev.v = 0 THEN awaiting \cup {Ev.a} ELSE awaiting
           /\ UNCHANGED <<bad, zombies, probes, delivered, dl, lastDrv, requeued, stash, states, phase, dlTo, tellAt>>
-OnOther == Ev.e \notin {"Fail", "Tell", "Hook", "Deliv", "Stashed", "Unstashed", "DL", "QBegin", "AState", "QEnd", "Stuck", "Reset"} /\ UNCHANGED <<bad, zombies, probes, delivered, dl, lastDrv, requeued, stash, states, phase, dlTo, tellAt, firstFail>>
-Next == l <= Len(TLog) /\ l' = l + 1 /\ (OnTell \/ OnHook \/ OnDeliv \/ OnStashed \/ OnUnstashed \/ OnDL \/ OnQBegin \/ OnAState \/ OnQEnd \/ OnStuck \/ OnReset \/ OnFail \/ OnOther)
+\* (a one-for-all decision applies to every child of the supervisor, also to one whose own failure is still to be decided:
+\* the monitor does not know the tree, so such a consultation clears everybody)
+\* After Restart or Stop the failed incarnation handles nothing more (the restart hooks / its OnKill come next); Resume and
+\* the graceful variants let it continue; after Escalate the monitor gives up (the final decision names the supervisor)
+OnConsult == /\ Ev.e = "Consult"
+             /\ awaiting' = (IF Ev.d \in {"restart", "stop"} THEN awaiting ELSE IF Ev.s = "ofa" THEN {} ELSE awaiting \ {Ev.p})
+             /\ UNCHANGED <<bad, zombies, probes, delivered, dl, lastDrv, requeued, stash, states, phase, dlTo, tellAt, firstFail>>
+OnOther == Ev.e \notin {"Consult", "Fail", "Tell", "Hook", "Deliv", "Stashed", "Unstashed", "DL", "QBegin", "AState", "QEnd", "Stuck", "Reset"} /\ UNCHANGED <<bad, zombies, probes, delivered, dl, lastDrv, requeued, stash, states, phase, dlTo, tellAt, firstFail, awaiting>>
+Next == l <= Len(TLog) /\ l' = l + 1 /\ (OnConsult \/ OnTell \/ OnHook \/ OnDeliv \/ OnStashed \/ OnUnstashed \/ OnDL \/ OnQBegin \/ OnAState \/ OnQEnd \/ OnStuck \/ OnReset \/ OnFail \/ OnOther)
 Spec == Init /\ [][Next]_vars
 
 Ok == bad = ""
